@@ -26,6 +26,7 @@ pub struct CReport {
     pub checks: BTreeMap<String, usize>,
     pub mismatches: Vec<Value>,
     pub skipped: usize,
+    pub drift: usize,
     pub samples: Vec<Value>,
 }
 impl CReport {
@@ -369,7 +370,13 @@ pub fn run(r: &Ref, cases: &[Value], seed: u64, flip_stride: usize) -> CReport {
                         continue; // totality only
                     }
                     rep.tick("C09");
-                    if got.class() != exp {
+                    // the property demands: forbidden classes are rejected, honest encodings are accepted, and whatever
+                    // is accepted re-encodes to itself.  An input that is neither forbidden nor an honest encoding
+                    // (zero scalars, whole zero scalars appended) may be rejected by a stricter decoder: drift only.
+                    let honest_input = delta == 0 && (0..ks.len()).all(|j| c["cls"][j].as_str() == Some("valid"));
+                    if got.class() != exp && exp == "Ok" && !honest_input && got.class() == "Err" {
+                        rep.drift += 1;
+                    } else if got.class() != exp {
                         mm(&mut rep, "C09", c, format!("decision of {name}"), exp, got.detail(), &b);
                     } else if let Out::Ok(re) = &got {
                         rep.tick("C09");
